@@ -348,6 +348,126 @@ fn rep_sequences(ctx: &mut Ctx) {
     }
 }
 
+
+/// REQ with 2..3 partners of which one dies: a send that FAILED is not a send - the socket must
+/// still be in the "may send" state, so the next send goes to a healthy partner and its reply
+/// is accepted (a failed call leaves the lock-step state unchanged).
+fn req_failed_send(ctx: &mut Ctx) {
+    world::swarm(ctx, SwarmOpts::default());
+    let npeers = 2 + ctx.plan(2) as usize;
+    let dead = ctx.plan(npeers as u64) as usize;
+    let by_reset = ctx.plan_bool();
+    let pre_rounds = ctx.plan(3) as usize;
+    let settle = ctx.plan_bool();
+    let viol: Viol = Rc::new(RefCell::new(Vec::new()));
+    let done = Rc::new(RefCell::new(false));
+    let (vl, dn) = (viol.clone(), done.clone());
+    rt::task::spawn_local("app", async move {
+        let mut req = ReqSocket::new();
+        let ep = req.bind("tcp://127.0.0.1:0").await.expect("bind").to_string();
+        let victim: Rc<RefCell<Option<RawPeer>>> = Rc::new(RefCell::new(None));
+        for p in 0..npeers {
+            let (ep, victim) = (ep.clone(), victim.clone());
+            rt::task::spawn_local("partner", async move {
+                let Ok(mut peer) = RawPeer::connect(&ep) else { return };
+                if peer.hello("REP", None).await.is_err() {
+                    return;
+                }
+                let mut answered = 0usize;
+                loop {
+                    if p == dead && answered >= pre_rounds {
+                        // from now on this partner only waits to be killed
+                        *victim.borrow_mut() = Some(peer);
+                        return world::park().await;
+                    }
+                    if !peer.wait_messages(answered + 1).await {
+                        break;
+                    }
+                    let n = peer.inbound().messages().len();
+                    while answered < n {
+                        if peer.send_msg(&[vec![], format!("reply-from-{p}").into_bytes()]).await.is_err() {
+                            return world::park().await;
+                        }
+                        answered += 1;
+                    }
+                }
+                world::park().await;
+            });
+        }
+        for _ in 0..3 {
+            rt::task::idle().await;
+        }
+        // undisturbed round trips: npeers * pre_rounds of them, so that every partner has answered pre_rounds times
+        for r in 0..npeers * pre_rounds {
+            if let Err(e) = req.send(to_zmq(&tagged(0, r as u32, &[4]))).await {
+                vl.borrow_mut().push(("legal_send_refused", format!("warm-up request {r}: {e}")));
+                return world::park().await;
+            }
+            if let Err(e) = req.recv().await {
+                vl.borrow_mut().push(("legal_recv_failed", format!("warm-up reply {r}: {e}")));
+                return world::park().await;
+            }
+        }
+        rt::task::idle().await;
+        let Some(v) = victim.borrow_mut().take() else {
+            vl.borrow_mut().push(("harness", "the victim partner was not parked when expected".into()));
+            return world::park().await;
+        };
+        if by_reset {
+            v.reset();
+            drop(v);
+        } else {
+            v.close();
+        }
+        if settle {
+            rt::task::idle().await;
+        }
+        // one partner is dead: at most one send may fail on it; every other send is in turn, must
+        // be accepted, and its reply must be accepted by the recv that follows
+        let mut failed = 0usize;
+        let mut served = 0usize;
+        for t in 0..2 * npeers + 1 {
+            match req.send(to_zmq(&tagged(1, t as u32, &[4]))).await {
+                Ok(()) => match rt::future::or_idle(req.recv()).await {
+                    Some(Ok(_)) => served += 1,
+                    Some(Err(e)) => {
+                        // the request may have been written to the dying partner before the socket could know
+                        failed += 1;
+                        if failed > 1 {
+                            vl.borrow_mut().push(("reply_lost_after_failed_call", format!("attempt {t}: recv failed ({e}) although the only dead partner had already cost one failed call")));
+                            return world::park().await;
+                        }
+                    }
+                    None => {
+                        vl.borrow_mut().push(("recv_never_completed", format!("attempt {t}: the request was accepted but no reply ever arrived ({} partners alive)", npeers - 1)));
+                        return world::park().await;
+                    }
+                },
+                Err(e) => {
+                    failed += 1;
+                    rt::count("probe_send_failed_on_dead_partner");
+                    if failed > 1 {
+                        vl.borrow_mut().push(("send_refused_after_failed_send", format!("attempt {t}: send failed ({e}); one partner of {npeers} is dead and one call had already failed on it - a failed send must leave the socket ready to send to the others")));
+                        return world::park().await;
+                    }
+                }
+            }
+        }
+        if served < npeers {
+            vl.borrow_mut().push(("healthy_partners_not_served", format!("only {served} round trips succeeded in {} attempts with {} healthy partners", 2 * npeers + 1, npeers - 1)));
+        }
+        *dn.borrow_mut() = true;
+        world::park().await;
+        drop(req);
+    });
+    let end = ctx.sim.run(300_000);
+    finish(ctx, end, &viol, *done.borrow(), "REQ with a dying partner");
+    ctx.nontrivial();
+    if ctx.want_sample {
+        ctx.out.sample = Some(format!("REQ with {npeers} partners; partner {dead} dies by {} after {pre_rounds} rounds each", if by_reset { "reset" } else { "close" }));
+    }
+}
+
 /// 1..4 concurrent clients (scripted and real REQ sockets) against one REP echo server
 fn concurrent(ctx: &mut Ctx) {
     world::swarm(ctx, SwarmOpts::default());
@@ -466,6 +586,7 @@ pub fn def() -> PropDef {
         strata: vec![
             Stratum { name: "req_sequences", quick: 126 * 60, thorough: (126 * 2000) * 4, exhaustive: (true, true), run: req_sequences, what: "all 126 call sequences <= 6 on REQ (first 126 cases undisturbed), then under random transport" },
             Stratum { name: "rep_sequences", quick: 126 * 60, thorough: (126 * 2000) * 4, exhaustive: (true, true), run: rep_sequences, what: "all 126 call sequences <= 6 on REP with two pipelining partners" },
+            Stratum { name: "req_failed_send", quick: 30_000, thorough: 1_500_000, exhaustive: (false, false), run: req_failed_send, what: "REQ with 2..3 partners, one dies: a failed send leaves the socket ready to send to the others" },
             Stratum { name: "concurrent", quick: 100_000, thorough: (1_500_000) * 4, exhaustive: (false, false), run: concurrent, what: "1..4 concurrent clients against one REP" },
         ],
     }
